@@ -571,6 +571,12 @@ func (r *rewriter) methodCall(c *astutil.Cursor, n *ast.CallExpr, fun *ast.Selec
 				gstyle("smap")
 			}
 		case "Pool":
+			switch mn {
+			case "Get":
+				c.Replace(simrtCall("PoolGet", recv(), r.site("pool")))
+			case "Put":
+				c.Replace(simrtCall("PoolPut", recv(), n.Args[0], r.site("pool")))
+			}
 		default:
 			r.fail(n.Pos(), "unhandled sync type %s", tn)
 		}
